@@ -569,7 +569,6 @@ pub fn buffered(spec: &crate::Spec) -> Report {
                     props.push("C13");
                 }
                 bad(&mut rep, &props, &format!("buffered-{}", b.sig), format!("{} at op {}: {}", ctx, i, b.what));
-                broken = true;
             }
             if which != "spy" {
                 check_stats(&mut rep, &format!("{} after op {}", ctx, i), &bs.sink().stats(), &tally);
